@@ -69,9 +69,14 @@ class PackageLoader(BaseLoader):
 
         for path in self.paths:
             source_path = path.joinpath(str(template_path))
-            if source_path.is_file():
-                # MyPy seems to think source_path has `Any` type :(
-                return source_path  # type: ignore
+            try:
+                if source_path.is_file():
+                    # MyPy seems to think source_path has `Any` type :(
+                    return source_path  # type: ignore
+            except OSError:
+                # The file system can't hold or won't show such a path (a name
+                # that is too long, a directory we may not search). Not here.
+                continue
 
         raise TemplateNotFoundError(template_name)
 
